@@ -846,7 +846,20 @@ def sf_K(I, st, e, fr, k):
     return k(st, ClassV(I.w.resolve_class(e.args[0].value)))
 
 
-SPECIAL_FORMS = {"K": sf_K, "uf": sf_uf, "old": sf_old, "fresh": sf_fresh, "implies": sf_implies, "iff": sf_iff, "isinstance": sf_isinstance,
+def sf_matches(I, st, e, fr, k):
+    """matches(<literal pattern>, s): s is in the fullmatch language of the pattern (spec only; str or bytes pattern)"""
+    from . import regex
+    pat = e.args[0].value
+    lang = regex.language(regex.parse_literal(pat), "fullmatch")
+    def got(s2, v):
+        t = as_sym(I, s2, v).t
+        sv_ = get_y(t) if isinstance(pat, bytes) else get_s(t)
+        ok = is_byt(t) if isinstance(pat, bytes) else is_str(t)
+        return k(s2, Sym(mk_bool(z3.And(ok, z3.InRe(sv_, lang)))))
+    return I.ev(st, e.args[1], fr, got)
+
+
+SPECIAL_FORMS = {"matches": sf_matches, "K": sf_K, "uf": sf_uf, "old": sf_old, "fresh": sf_fresh, "implies": sf_implies, "iff": sf_iff, "isinstance": sf_isinstance,
                  "super": sf_super, "forall": sf_forall, "exists": sf_forall, "hasattr": sf_hasattr}
 SPECIAL_ALWAYS = {"isinstance", "super", "hasattr"}
 
